@@ -13,6 +13,7 @@ import Ivg.Gen.Tie.Code.Encoder3
 import Ivg.Gen.Tie.Code.Encoder4
 import Ivg.Gen.Tie.Code.Encoder5
 import Ivg.Gen.Tie.Code.Encoder6
+import Ivg.Gen.Tie.Code.GenGrad
 import Ivg.Obligations
 /-!
 # C07 — selector clause: the Encoder and the Renderer report the same CSEL / NSEL
@@ -299,4 +300,7 @@ end Ivg.Props.C07
   Ivg.Gen.Tie.reset_code_tie_state,
   Ivg.Gen.Tie.wfEnc_init,
   Ivg.Gen.Tie.wfEnc_step,
-  Ivg.Gen.Tie.wfEnc_runOps]
+  Ivg.Gen.Tie.wfEnc_runOps,
+  -- regenerated code (translator): the Generator helper that reads the selectors back
+  Ivg.Gen.Tie.setGradient_code_tie,
+  Ivg.Gen.Tie.setGradient_selectors_restored]
